@@ -178,6 +178,15 @@ def run_case(case: dict) -> dict:
     try:
         root = d / "root"
         p = projmodel.ensure_cls(case["p"])
+        if case.get("markup"):
+            # holders as people write them: an ampersand, an e-mail address in angle brackets (tag-value knows no escaping)
+            p = json.loads(json.dumps(p).replace(" Author", " Author & Sons <author@example.com>").replace("2020 Same", "2020 Same <same@example.org> & Co"))
+        if case.get("aggregate") and not p.get("tomls") and not p.get("dep5"):
+            # one REUSE.toml table that is aggregated with what every file declares itself
+            p["tomls"] = [{"dir": [], "dirchars": [], "srcstr": "REUSE.toml",
+                           "tables": [{"globs": [list("**")], "prec": "aggregate", "cop": ["2022 Aggregate Owner"],
+                                       "lic": [{"text": "CC0-1.0", "tree": {"key": "CC0-1.0", "base": "CC0-1.0"}}]}]}]
+            p = projmodel.ensure_cls(p)
         m = projmodel.materialise(p, root, rnd, outside=d / "outside")
         # every third text file gets DOS line endings (and one a lone CR LF inside): the checksum is over the bytes as they are
         for f_ in p["files"]:
@@ -260,6 +269,9 @@ def run(ctx: core.Ctx) -> int:
     for c in c06.make_cases(inv, rnd, 1, len(cases) + 1, ctx.seed):
         cases.append({"tid": len(cases) + 1, "p": c["p"], "label": c["label"], "seed": c["seed"],
                       "concluded": bool(len(cases) % 2), "mp": False, "to_file": False})
+    for k_, c_ in enumerate(cases):
+        c_["markup"] = k_ % 3 == 1
+        c_["aggregate"] = k_ % 4 == 2 and not c_["mp"]
     events = ctx.pmap(run_case, cases, chunksize=8)
     for ev in events[:: max(1, len(events) // 3)][:3]:
         ctx.samples.append({"case": json.loads(ev["label"]), "concluded": ev["concluded"],
